@@ -30,6 +30,20 @@ Theorem C14_gate_and_effect : forall e st m st' r,
 Proof. exact migrate_inv. Qed.
 Print Assumptions C14_gate_and_effect.
 
+(* conversely, a request that meets the gate is carried out, with exactly that effect: together with the theorem above,
+   acceptance of a migration is decided by the gate and by nothing else *)
+Theorem C14_accepted_when_gate_met : forall e st m d vs v c af bf bids',
+  opt_pair_ok (g_afr m) (g_afa m) = true -> opt_pair_ok (g_bfr m) (g_bfa m) = true ->
+  st_ver st = Some (d, vs) -> version_parse vs = Some v -> req_ge_0_16_2 v = true ->
+  st_cfg st = Some c -> opt_addrs_ok e (g_approvers m) = true ->
+  fee_pair e (cf_ask_fee c) (g_afa m) (g_afr m) = Ok af ->
+  fee_pair e (cf_bid_fee c) (g_bfa m) (g_bfr m) = Ok bf ->
+  convert_slots (req_window v) (st_bids st) = Ok bids' ->
+  migrate e st m = Ok (mkstate (Some (migrated_cfg c m af bf)) (Some (e_crate_name e, e_pkg_version e)) (st_asks st) bids',
+                       mkresp [] []).
+Proof. exact migrate_if. Qed.
+Print Assumptions C14_accepted_when_gate_met.
+
 (* applying the same migration a second time changes nothing further (package version at or after the bid
    format change, as for this code base: 1.0.0) *)
 Theorem C14_idempotent : forall e st m st' r,
